@@ -71,7 +71,19 @@ class VAlloc:
         self.named += 1
         if self.policy == "fresh" and self.named % self.sweep_every == 0:
             self.sweep()
+            if self.named % 4096 == 0:
+                self.prune_registry()
         return v
+
+    def prune_registry(self):
+        """Fresh identities are never handed out twice, so a registry entry whose identity belongs to no live tuple and whose
+        weak references are all dead can never be looked up again: in CPython the address would be reused and register()
+        would prune it; here it would only pile up (one entry per storage tuple ever created, GBs in a long work unit)."""
+        from serif.alias_tracker import _ALIAS_TRACKER
+        reg = _ALIAS_TRACKER._registry
+        live = {ent[1] for ent in self.map.values()}
+        for k in [k for k, refs in reg.items() if isinstance(k, int) and k < self.next and k not in live and all(r() is None for r in refs)]:
+            del reg[k]
 
     def sweep(self):
         """Release every tuple that only the allocator still references."""
